@@ -10,6 +10,9 @@ import (
 	"strings"
 	"time"
 
+	"github.com/xinchentechnote/fin-proto-go/codec"
+
+	"verif/internal/bind"
 	"verif/internal/gen"
 	"verif/internal/schema"
 	"verif/internal/val"
@@ -28,9 +31,10 @@ const (
 )
 
 type hcase struct {
-	kind string
-	site string
-	in   []byte
+	kind   string
+	site   string
+	in     []byte
+	bigCap bool // hand the input over in a buffer whose capacity (4 MiB) far exceeds its content
 }
 
 // staticSites lists every length/count reader site of the pinned schema: "<pkg.Type>.<Field>:<cat>".
@@ -91,7 +95,7 @@ func hostileCases(e *Env, t *schema.Type) []hcase {
 	// (a) uniformly random bytes
 	lens := []int{0, 1, 2, 3, 4, 5, 7, 8, 12, 16, 24, 33, 64, 100, 256, 1000, 4096}
 	for i := 0; i < nRand; i++ {
-		cs = append(cs, hcase{kind: "random", in: rng.Bytes(lens[rng.Intn(len(lens))])})
+		cs = append(cs, hcase{kind: "random", in: rng.Bytes(lens[rng.Intn(len(lens))]), bigCap: i%4 == 3})
 	}
 	// valid base images (one plain, one per registered key of the type's own tables)
 	var bases [][]byte
@@ -113,6 +117,22 @@ func hostileCases(e *Env, t *schema.Type) []hcase {
 			}
 			site := tk.Site + ":" + tk.Cat
 			hvs := hostileValues(tk.W)
+			if !lengthWord {
+				// counts whose product with the element size wraps around the prefix width (a count*size
+				// availability test done in the prefix type passes for them), and plain powers of two
+				mod := uint64(1) << (8 * uint(tk.W))
+				if tk.W == 8 {
+					mod = 0
+				}
+				for _, es := range []uint64{2, 3, 4, 8, 10, 12, 16, 20, 24} {
+					for k := uint64(1); k <= 3 && mod != 0; k++ {
+						hvs = append(hvs, (k*mod+es-1)/es)
+					}
+				}
+				for sh := uint(9); sh < 8*uint(tk.W) && sh < 40; sh += 2 {
+					hvs = append(hvs, 1<<sh, 7<<(sh-2))
+				}
+			}
 			if lengthWord {
 				// a decoder that starts honouring the frame length must survive every absurd value,
 				// including the handful right below the wrap-around of "length + trailer"
@@ -126,10 +146,10 @@ func hostileCases(e *Env, t *schema.Type) []hcase {
 				for _, le := range []bool{t.LE, !t.LE} {
 					tokb := refInt(tk.W, hv, le)
 					head := append(append([]byte(nil), img[:tk.Off]...), tokb...)
-					cs = append(cs, hcase{"site-directed/cut", site, head})
-					cs = append(cs, hcase{"site-directed/+1", site, append(append([]byte(nil), head...), rng.Bytes(1)...)})
-					cs = append(cs, hcase{"site-directed/+16", site, append(append([]byte(nil), head...), rng.Bytes(16)...)})
-					cs = append(cs, hcase{"site-directed/valid-remainder", site, append(append([]byte(nil), head...), img[tk.Off+tk.W:]...)})
+					cs = append(cs, hcase{"site-directed/cut", site, head, false})
+					cs = append(cs, hcase{"site-directed/+1", site, append(append([]byte(nil), head...), rng.Bytes(1)...), false})
+					cs = append(cs, hcase{"site-directed/+16", site, append(append([]byte(nil), head...), rng.Bytes(16)...), true})
+					cs = append(cs, hcase{"site-directed/valid-remainder", site, append(append([]byte(nil), head...), img[tk.Off+tk.W:]...), le == t.LE})
 				}
 			}
 		}
@@ -196,7 +216,11 @@ func hostileCases(e *Env, t *schema.Type) []hcase {
 				}
 				key := tb.Entries[rng.Intn(len(tb.Entries))].Key.(string)
 				kb := []byte(key)
-				switch rng.Intn(4) {
+				switch rng.Intn(6) {
+				case 4: // sign / radix characters in front of digits ("-12", "+07", "0x1")
+					kb = []byte{"-+ 0"[rng.Intn(4)], byte('0' + rng.Intn(10)), byte('0' + rng.Intn(10))}
+				case 5:
+					kb = []byte{byte('0' + rng.Intn(10)), "xX.eE-"[rng.Intn(6)], byte('0' + rng.Intn(10))}
 				case 0:
 					kb[rng.Intn(len(kb))] = byte('0' + rng.Intn(10))
 				case 1:
@@ -272,6 +296,7 @@ func hostileChild(e *Env, ca childArgs) {
 	var worstAllocCase, worstStepCase string
 	var m0, m1 runtime.MemStats
 	kinds := map[string]int64{}
+	bigBack := make([]byte, 4<<20)
 	var distinct int64
 	seen := map[uint64]struct{}{}
 	for ti, t := range e.Types() {
@@ -293,6 +318,12 @@ func hostileChild(e *Env, ca childArgs) {
 			d := e.C.New[t.QName]()
 			in := append([]byte(nil), c.in...)
 			buf := bytes.NewBuffer(in)
+			if c.bigCap && len(c.in) < len(bigBack)/2 {
+				// a receive buffer that is much larger than what it currently holds (capacity is not content)
+				copy(bigBack, c.in)
+				buf = bytes.NewBuffer(bigBack[:len(c.in):len(bigBack)])
+				kinds["buffer-with-4MiB-spare-capacity"]++
+			}
 			log.begin(n, id)
 			runtime.ReadMemStats(&m0)
 			err, p := LibDecode(d, buf)
@@ -349,6 +380,77 @@ func hostileChild(e *Env, ca childArgs) {
 			r.Evals(1)
 		}
 	}
+	// ---- registration scenario (C09 only): an unknown discriminator, then a run-time re-registration of an
+	// existing key through the public Registry…Factory function, then a perfectly valid message.  A decoder
+	// that leaked a lock on the error path blocks here forever.
+	if r.Prop == "C09" && ca.one < 0 {
+		for ti, t := range e.Types() {
+			if ti%ca.nshards != ca.shard {
+				continue
+			}
+			for fi := range t.Fields {
+				f := &t.Fields[fi]
+				if f.Kind != "union" {
+					continue
+				}
+				tb := e.S.Table(t.Pkg, f.Table)
+				reg := bind.Registrars[tb.QName]
+				if reg == nil {
+					continue
+				}
+				g := &gen.Gen{S: e.S, C: e.C, R: gen.NewRng(e.Seed, "C09-registration", t.QName), O: &gen.Opts{}}
+				valid := g.Value(t)
+				img, err := e.C.Encode(t, valid)
+				bad := g.Value(t)
+				setKeyField(bad, f.Key, g.UnregKeyFor(tb))
+				badImg, err2 := e.C.Encode(t, bad)
+				if err != nil || err2 != nil {
+					continue
+				}
+				en := tb.Entries[0]
+				pinned := e.S.Lookup(t.Pkg, en.Type).QName
+				done := make(chan string, 1)
+				go func() {
+					_, p1 := LibDecode(e.C.New[t.QName](), bytes.NewBuffer(append([]byte(nil), badImg...)))
+					reg(en.Key, func() codec.BinaryCodec { return e.C.New[pinned]().(codec.BinaryCodec) })
+					derr, p2 := LibDecode(e.C.New[t.QName](), bytes.NewBuffer(append([]byte(nil), img...)))
+					switch {
+					case p1 != nil || p2 != nil:
+						done <- fmt.Sprintf("panic: %v %v", p1, p2)
+					case derr != nil:
+						done <- "valid message rejected after re-registration: " + derr.Error()
+					default:
+						done <- ""
+					}
+				}()
+				kinds["registration-scenario"]++
+				r.Evals(1)
+				select {
+				case msg := <-done:
+					if msg != "" {
+						r.Violate("C09/registration-scenario/"+t.QName, "C09/registration-scenario/"+t.QName, map[string]any{"type": t.QName, "table": tb.QName, "problem": msg})
+					}
+				case <-time.After(20 * time.Second):
+					stacks := make([]byte, 1<<20)
+					stacks = stacks[:runtime.Stack(stacks, true)]
+					s := string(stacks)
+					if strings.Contains(s, "sync.(*RWMutex)") || strings.Contains(s, "sync.(*Mutex)") || strings.Contains(s, "semacquire") {
+						// not "slow": the goroutine is parked on a lock inside the library and nobody holds it
+						i := strings.Index(s, "fin-proto-go")
+						lo := i - 1500
+						if lo < 0 {
+							lo = 0
+						}
+						r.Violate("C09/decoder-blocked-forever-on-a-lock/"+t.QName, "C09/decoder-blocked-forever-on-a-lock/"+t.QName, map[string]any{"type": t.QName, "table": tb.QName,
+							"sequence":       "Decode(image with unregistered " + f.Key + ") -> error; Registry" + tb.Name + "Factory(existing key, same factory); Decode(valid image) never returns",
+							"goroutine_dump": s[lo:min(len(s), lo+3000)]})
+					} else {
+						r.Inconclusive("registration scenario of " + t.QName + " did not return within 20 s but no goroutine is parked on a lock")
+					}
+				}
+			}
+		}
+	}
 	r.DistinctAdd(distinct)
 	for k, v := range kinds {
 		r.Count("kind:"+k, v)
@@ -379,7 +481,7 @@ func hostile(e *Env) {
 		return
 	}
 	r := e.R
-	r.Rule("every decoder (170 types) × hostile inputs, case i a pure function of (seed, type, i): (a) uniformly random bytes of 0..4096 bytes; (b) strict prefixes of valid images; (c) valid images with 1..8 bit flips / byte substitutions; (d) site-directed: for EVERY text-length / list-count token and every frame body-length word of valid images (one base image per registered discriminator key) the token is set to each of {max, max-1, 2^31, 2^31-1, 2^16, 0x0100, ...} in the module's byte order and in the opposite one, followed by nothing, 1 byte, 16 bytes, or the valid remainder; (e) unknown and near-miss discriminators; plus legitimate large images (1000- and 65535-element lists actually present) that must stay inside the bound. distinct_nontrivial = distinct non-empty inputs")
+	r.Rule("every decoder (170 types) × hostile inputs, case i a pure function of (seed, type, i): (a) uniformly random bytes of 0..4096 bytes; (b) strict prefixes of valid images; (c) valid images with 1..8 bit flips / byte substitutions; (d) site-directed: for EVERY text-length / list-count token and every frame body-length word of valid images (one base image per registered discriminator key) the token is set to each of {max, max-1, 2^31, 2^31-1, 2^16, 0x0100, ...} in the module's byte order and in the opposite one, (for counts also every value whose product with a plausible element size wraps around the prefix width, and powers of two) followed by nothing, 1 byte, 16 bytes, or the valid remainder, half of them handed over in a receive buffer with 4 MiB of spare capacity; (e) unknown and near-miss discriminators; plus legitimate large images (1000- and 65535-element lists actually present) that must stay inside the bound. distinct_nontrivial = distinct non-empty inputs")
 	if r.Prop == "C09" {
 		r.Explain(fmt.Sprintf("Oracle: Decode returns normally (nil or error): no recovered panic; the child process (RLIMIT_AS 2 GiB, single goroutine) does not die (fatal out-of-memory / stack exhaustion bypass recover and are seen as process death with the pre-logged in-flight input as witness); step proxy: heap objects allocated during the call <= %d + %d*len(input) (every loop iteration of every reader allocates at least once, so this bounds the number of reader steps independently of machine load); a wall-clock watchdog only triggers an isolated re-run and is never a verdict by itself.", stepConst, stepPerByte))
 	} else {
